@@ -7,7 +7,7 @@ from .. import gens, refmodel
 
 RULE = ("Cases: Hypothesis signals of length 3..400 (quick) / 3..2000 (thorough) from all families (noise, random walk, "
         "multi-tone + trend, AM/FM, integer-valued/plateau, constant, ramp, edge-plateau; short noisy signals "
-        "over-weighted; stored as float64, float32, int64 or int16) x stop rule x step size x {splrep,pchip,mono_pchip} x pad_width 1..5, max_imfs=None, no "
+        "over-weighted; stored as float64, float32, int64 or int16) x stop rule (a quarter of the sd / rilling cases with an iteration limit of 1..10) x step size x {splrep,pchip,mono_pchip} x pad_width 1..5, max_imfs=None, no "
         "energy threshold, default sift_thresh. Oracle: result is a finite [N x K] array or the documented "
         "EMDSiftCovergeError; unless sum|last column| < sift_thresh: max|sum_k imf_k - x| <= 1e-9*max|x| and the "
         "last column has < 2 strict interior maxima or < 2 strict interior minima. Exit paths of every extraction "
@@ -27,6 +27,9 @@ def case(draw):
         opts['rilling_thresh'] = draw(st.sampled_from([(0.05, 0.5, 0.05), (0.1, 0.8, 0.1), (0.2, 0.9, 0.2)]))
     else:
         opts['max_iters'] = draw(st.integers(1, 25))
+    if sm != 'fixed' and draw(st.integers(0, 3)) == 0:
+        # a tight iteration limit: some IMF (often not the first) fails to converge within it
+        opts['max_iters'] = draw(st.integers(1, 10))
     return {'sig': sig, 'opts': opts, 'interp': draw(st.sampled_from(['splrep', 'pchip', 'mono_pchip'])),
             'pad': draw(st.integers(1, 5))}
 
